@@ -293,6 +293,12 @@ class AccuracyQueue(CircularQueue):
         self.num_true -= 1 if element else 0
         return element
 
+    def maintain_last_element(self) -> None:
+        """Clear all elements except the last one."""
+        super().maintain_last_element()
+        if not self.is_empty():
+            self.num_true = np.count_nonzero(self.queue[self.first])
+
     def enqueue(self, value: Union[np.ndarray, float]) -> None:
         """Enqueue element/s.
 
